@@ -11,6 +11,7 @@ package coop
 import (
 	"fmt"
 	"runtime/debug"
+	"sort"
 	"sync"
 	"time"
 
@@ -169,6 +170,9 @@ func (s *Sched) hook(point string, l *ipfslog.IPFSLog) {
 	<-t.resume
 }
 
+// ConfirmGrace is how long the threads of a model-level deadlock get to finish on the real locks.
+var ConfirmGrace = 2 * time.Second
+
 type Outcome struct {
 	Deadlock   bool
 	Blocked    []string // description of each blocked thread (deadlock)
@@ -208,6 +212,51 @@ func (s *Sched) Run() Outcome {
 					ls := s.lockOf(t.req.log)
 					out.Blocked = append(out.Blocked, fmt.Sprintf("T%d(%s) waits for %c-lock of %s (writer: T%d, readers: %v)", t.id, t.name, t.req.kind, s.names[t.req.log], ls.writer, ls.readers))
 				}
+			}
+			// The verdict so far rests on the lock model fed by the hooks. Confirm it against the real locks:
+			// let every parked thread go on to its real lock call (pending writers the model counts as having
+			// called Lock first, so that the real RWMutex sees the same arrival order) with the hooks switched
+			// off. If the threads then all finish, the real locks did not block them - the model and the code
+			// disagree (e.g. a lock released earlier than its hook says) and the case is inconclusive, not a
+			// deadlock. If they are still parked after the grace period, the deadlock is real.
+			s.cur = -1
+			var parked []*thread
+			for _, t := range s.threads {
+				if !t.done && t.started {
+					parked = append(parked, t)
+				}
+			}
+			sort.SliceStable(parked, func(i, j int) bool {
+				wi := parked[i].req != nil && parked[i].req.kind == 'w' && parked[i].req.issued
+				wj := parked[j].req != nil && parked[j].req.kind == 'w' && parked[j].req.issued
+				if wi != wj {
+					return wi
+				}
+				if parked[i].req != nil && parked[j].req != nil {
+					return parked[i].req.seq < parked[j].req.seq
+				}
+				return false
+			})
+			for _, t := range parked {
+				t.resume <- struct{}{}
+				time.Sleep(15 * time.Millisecond)
+			}
+			finished := 0
+			grace := time.After(ConfirmGrace)
+		confirm:
+			for finished < len(parked) {
+				select {
+				case <-s.yield:
+					finished++
+				case <-grace:
+					break confirm
+				}
+			}
+			if finished == len(parked) {
+				out.Deadlock = false
+				out.Blocked = nil
+				out.Stuck = "the lock model reported a deadlock that the real locks did not confirm (all threads completed once released)"
+				return out
 			}
 			// leave the parked goroutines behind: they hold only objects of this case
 			break
